@@ -1,6 +1,7 @@
 package c06
 
 import (
+	"math"
 	"strconv"
 
 	"pgregory.net/rapid"
@@ -45,6 +46,8 @@ type g struct {
 	// literals of the expression: column values are aimed at them
 	numPool []float64
 	strPool []string
+	// numbers already drawn for this case: a later column value may sit a hair next to one of them
+	seenNums []float64
 }
 
 func (s *g) collectLiterals(n *Node) {
@@ -380,8 +383,29 @@ func (s *g) arg(code, xk string, d int) *Node {
 // ---- rows ----
 
 func (s *g) numVal(nonzero bool, label string) gen.Val {
+	v := s.numVal0(nonzero, label)
+	if f, ok := v.Num(); ok {
+		s.seenNums = append(s.seenNums, f)
+	}
+	return v
+}
+
+func (s *g) numVal0(nonzero bool, label string) gen.Val {
 	for {
 		var v gen.Val
+		// near-equality aiming: a value unequal to, but within 1e-9 of, a literal or an earlier value (an
+		// evaluator that compares with a tolerance, or through a lossy conversion, decides differently)
+		if pool := append(append([]float64{}, s.numPool...), s.seenNums...); len(pool) > 0 && s.pick(label+"near", 12) == 0 {
+			f := pool[s.pick(label+"nearof", len(pool))]
+			d := []float64{1e-10, -3e-10, 5e-13}[s.pick(label+"neard", 3)]
+			nf := f + d
+			if nf == f {
+				nf = math.Nextafter(f, math.Inf(1))
+			}
+			if !(nonzero && nf == 0) {
+				return gen.Float(nf)
+			}
+		}
 		// boundary aiming: a value equal to a numeric literal of the expression, as int or as float64
 		if len(s.numPool) > 0 && s.pick(label+"aim", 4) == 0 {
 			f := s.numPool[s.pick(label+"lit", len(s.numPool))]
